@@ -69,3 +69,6 @@ func verifNameEq(a, b string) bool
 func verifNoLocksHeld() bool
 func verifCaptureStd()
 func verifHeldExclusive() int
+func verifPlantFailingFile(f **os.File)
+func verifFDEndsWith(f *os.File, data string) bool
+func verifBig(s string) string
